@@ -230,6 +230,13 @@ def build_abba(r):
                       "expect": "deadlock", "steps": steps}
 
 
+def build_sleeper(r):
+    steps = trace_steps(r)
+    c = cfg_consts("peers/PoolFineFreshChan.cfg")
+    return steps and {"name": "sleeper", "ttl": c["TTL"], "cleanup": c["CleanupThreshold"], "slots": c["slots"],
+                      "expect": "sleeping-waiter", "steps": steps}
+
+
 def build_early(r):
     steps = trace_steps(r, pool_proj)
     c = cfg_consts("peers/PoolAtomicOrigCount.cfg")
@@ -370,6 +377,11 @@ def run(ctx):
         "fine": lambda: ctx.tlc(SPEC, fine_cfg, timeout=2400, coverage=not quick, workers=max(2, W // 2)),
         # 2./3. model variants without the deadlock fix / without the cool-down counter: TLC's counterexamples
         "origlock": lambda: witness(ctx, "abba", SPEC, "peers/PoolFineOrigLock.cfg", ("deadlock", "NoLockCycle"), build_abba, workers=2),
+        # hypothetical checkHasPeers (close + fresh channel at once): TLC's schedule "waiter fails tryGet; add; waiter reads
+        # the channel" is forced on the real code with the gate at next.loop
+        "sleeper": lambda: witness(ctx, "sleeper", SPEC, "peers/PoolFineFreshChan.cfg", ("NoSleepingWaiter",), build_sleeper),
+        # fine-grained model WITH next(): NoSleepingWaiter and deadlock freedom over all interleavings
+        "finewait": lambda: ctx.tlc(SPEC, "peers/PoolFineWait.cfg", timeout=2400, workers=max(2, W // 4)),
         "origcount": lambda: witness(ctx, "early", SPEC, "peers/PoolAtomicOrigCount.cfg", ("NoEarlyReturn",), build_early),
         # 4. atomic-method state graph (printed edge by edge)
         "atomic": lambda: ctx.tlc(SPEC, atomic_cfg, timeout=2400, workers=2 if quick else 4),
@@ -404,8 +416,7 @@ def run(ctx):
         if missing:
             ctx.inconclusive("vacuity: definitions never evaluated to a step in the fine-grained run: %s" % missing)
 
-    if R["origlock"]:
-        plan["fine"] = [R["origlock"]]
+    plan["fine"] = [w for w in (R["origlock"], R["sleeper"]) if w]
     if R["origcount"]:
         plan["witness"] = [R["origcount"]]
 
@@ -500,6 +511,12 @@ def run(ctx):
         ctx.inconclusive("the deadlock schedule was not executed")
     elif fa and not fa.get("deadlocked") and (fa.get("diverged") or not fa.get("completed")):
         ctx.inconclusive("deadlock schedule: neither reproduced nor run to completion: %s" % fa)
+    fs = summ.get("fine_sleeper")
+    if R["sleeper"] and not fs:
+        ctx.inconclusive("the sleeping-waiter schedule was not executed")
+    elif fs and (fs.get("diverged") or (not fs.get("asleep") and not fs.get("woke"))):
+        ctx.inconclusive("sleeping-waiter schedule: not executed to its end: %s" % fs)
+    ctx.cover(sleeping_waiter_schedule=fs)
     we = summ.get("witness_early")
     if plan.get("witness") and not we:
         ctx.inconclusive("the early-return witness was not executed")
